@@ -325,6 +325,236 @@ def r_ex(chk, units, scope):
 
 
 # ------------------------------------------------------------------------------------------------
+# R-EX.init: Eigen objects get defined coefficients when they are created
+# ------------------------------------------------------------------------------------------------
+_EIGEN = ("Eigen::Matrix<", "Eigen::Array<")
+_WHOLE_INIT = {"setZero", "setConstant", "setOnes", "setIdentity", "fill", "setRandom", "setLinSpaced", "operator=",
+               "operator<<"}
+_UNCOND_BREAKERS = {"IfStmt", "ContinueStmt", "BreakStmt", "SwitchStmt", "ConditionalOperator", "GotoStmt", "ReturnStmt",
+                    "CXXTryStmt"}
+
+
+def _is_int_type(t):
+    t = t.replace("const ", "").strip(" &")
+    return t in ("int", "long", "unsigned long", "unsigned int", "long long", "unsigned long long", "short",
+                 "unsigned short", "size_t", "std::size_t") or t.startswith("Eigen::Index")
+
+
+def _size_only_ctor(u, e):
+    """e constructs an Eigen dense object from sizes only (coefficients left indeterminate)."""
+    x = e
+    while x is not None and x["k"] in ("ExprWithCleanups", "ImplicitCastExpr", "CXXBindTemporaryExpr",
+                                       "MaterializeTemporaryExpr", "CXXFunctionalCastExpr", "ParenExpr"):
+        x = kids(x)[0] if kids(x) else None
+    if x is None or x["k"] not in CTOR_KINDS:
+        return False
+    d = u.decls.get(x.get("d"))
+    rq = (d or {}).get("recqn", "") or u.types[x["t"]]
+    if not rq.startswith(_EIGEN):
+        return False
+    args = [a for a in kids(x) if a is not None and a["k"] != "CXXDefaultArgExpr"]
+    if not args:
+        return False   # default construction: an empty (0 x 0) object for dynamic sizes, nothing to read
+    return all(_is_int_type(u.types[strip(a)["t"]]) for a in args) and len(args) <= 2
+
+
+def _mentions(n, var_id):
+    return any(m["k"] == "DeclRefExpr" and m.get("d") == var_id for m in walk(n))
+
+
+def r_eigen_init(chk, units, scope):
+    rule = "R-EX.init"
+    chk.rule(rule, "an Eigen matrix / vector created in the repository never starts with indeterminate coefficients: it is "
+                   "initialised from an expression (Zero, Constant, a result), or the size-only constructor / resize() "
+                   "is immediately followed by a whole-object initialiser (setZero, fill, =, <<) or an unconditional "
+                   "element-wise fill loop")
+    n_obj = 0
+    for u in units:
+        for f in u.funcs:
+            if f.dependent or not scope(f) or f.body is None:
+                continue
+            # member initialisers
+            for it in f.inits:
+                init = it.get("init")
+                if init is not None and _size_only_ctor(u, init):
+                    n_obj += 1
+                    chk.bad(rule, f.where(), f.pqn, "size-only:%s" % it.get("name", "?"),
+                            "member %s is an Eigen object constructed from its sizes only: its coefficients are "
+                            "indeterminate until every one of them is written" % it.get("name", "?"),
+                            witness=dict(function=f.qn, unit=u.name))
+            for blk in f.all_nodes():
+                if blk["k"] != "CompoundStmt":
+                    continue
+                stmts = kids(blk)
+                for i, st in enumerate(stmts):
+                    if st is None:
+                        continue
+                    cands = []
+                    if st["k"] == "DeclStmt":
+                        for v in kids(st):
+                            if v is not None and v["k"] == "VarDecl" and u.types[v["t"]].replace("const ", "").startswith(
+                                    _EIGEN):
+                                n_obj += 1
+                                if kids(v) and _size_only_ctor(u, kids(v)[0]):
+                                    cands.append((v["id"], v.get("n"), "constructed from its sizes only"))
+                    else:
+                        x = strip(st) if st["k"] not in ("ForStmt", "WhileStmt", "IfStmt", "CompoundStmt") else None
+                        ci = call_info(u, x) if x is not None and x["k"] in CALL_KINDS else None
+                        if ci and ci.decl is not None and ci.kind == "member" and ci.decl["name"] in (
+                                "resize", "conservativeResize") and ci.decl.get("recqn", "").startswith(
+                                ("Eigen::",)) and ci.obj is not None:
+                            r = strip(ci.obj)
+                            if r is not None and r["k"] == "DeclRefExpr":
+                                cands.append((r["d"], r.get("n"), "resized"))
+                    for vid, vname, how in cands:
+                        nxt = next((s_ for s_ in stmts[i + 1:] if s_ is not None and _mentions(s_, vid)), None)
+                        ok = False
+                        if nxt is not None:
+                            x = strip(nxt) if nxt["k"] not in ("ForStmt", "CXXForRangeStmt", "WhileStmt") else None
+                            ci = call_info(u, x) if x is not None and x["k"] in CALL_KINDS else None
+                            if ci and ci.decl is not None and ci.decl["name"] in _WHOLE_INIT:
+                                recv = strip(ci.obj) if ci.obj is not None else (strip(ci.args[0]) if ci.args else None)
+                                ok = recv is not None and recv["k"] == "DeclRefExpr" and recv["d"] == vid
+                            elif nxt["k"] in ("ForStmt", "CXXForRangeStmt"):
+                                ok = not any(m["k"] in _UNCOND_BREAKERS for m in walk(nxt))
+                        if not ok:
+                            chk.bad(rule, f.loc(st), f.pqn, "indeterminate:%s" % vname,
+                                    "Eigen object '%s' is %s (indeterminate coefficients) and is not initialised as a "
+                                    "whole, nor filled by an unconditional loop, before it is used: coefficients that "
+                                    "are not written are read uninitialised" % (vname, how),
+                                    witness=dict(function=f.qn, unit=u.name))
+    chk.ok(rule, "include/bspline, examples, readme", "%d Eigen objects: all start with defined coefficients" % n_obj,
+           key="eigen")
+    return n_obj
+
+
+# ------------------------------------------------------------------------------------------------
+# R-LIFE.seq: an argument moved into a by-value parameter while a sibling argument reads the same object
+# ------------------------------------------------------------------------------------------------
+def r_arg_sequence(chk, units, scope):
+    rule = "R-LIFE.seq"
+    chk.rule(rule, "no call moves an object into a by-value parameter (the move constructor runs while the arguments "
+                   "are initialised) and reads the same object in a sibling argument: argument initialisations are "
+                   "indeterminately sequenced, so the read sees the moved-from object with some compilers")
+    n_calls = 0
+    for u in units:
+        for f in u.funcs:
+            if f.dependent or not scope(f):
+                continue
+            for n in f.all_nodes():
+                if n["k"] not in CALL_KINDS and n["k"] not in CTOR_KINDS:
+                    continue
+                if n["k"] in CALL_KINDS:
+                    ci = call_info(u, n)
+                    if ci is None or ci.decl is None:
+                        continue
+                    d, args = ci.decl, list(ci.args)
+                    others = ([ci.obj] if ci.obj is not None else [])
+                else:
+                    d = u.decls.get(n.get("d"))
+                    if d is None:
+                        continue
+                    args, others = list(kids(n)), []
+                params = d.get("params", [])
+                if len(args) < 2 or d["qn"].startswith(("std::move<", "std::forward<")):
+                    continue
+                n_calls += 1
+                for i, a in enumerate(args):
+                    if a is None or i >= len(params) or params[i]["type"].endswith("&"):
+                        continue   # a reference parameter: nothing is moved during argument initialisation
+                    moved = _moved_var(u, a)
+                    if moved is None:
+                        continue
+                    for j, b in enumerate(args + others):
+                        if b is None or j == i:
+                            continue
+                        if _mentions(b, moved[0]):
+                            chk.bad(rule, f.loc(n), f.pqn, "moved-and-read:%s" % moved[1],
+                                    "'%s' is moved into the by-value parameter %d of %s while another argument of the "
+                                    "same call reads it: the order of the two is unspecified (clang evaluates left to "
+                                    "right: the read sees the moved-from object)" % (moved[1], i + 1, d["qn"][:80]),
+                                    witness=dict(function=f.qn, unit=u.name))
+                            break
+    chk.ok(rule, "include/bspline, examples, readme", "%d calls with >= 2 arguments: none moves and reads one object"
+           % n_calls, key="seq")
+    return n_calls
+
+
+def _moved_var(u, a):
+    """(decl id, name) if the argument expression move-constructs the parameter from std::move(<variable>)."""
+    for m in walk(a):
+        if m["k"] in CALL_KINDS:
+            ci = call_info(u, m)
+            if ci and ci.decl is not None and ci.decl["qn"].startswith("std::move<") and ci.args:
+                r = strip(ci.args[0])
+                if r is not None and r["k"] == "DeclRefExpr":
+                    # only if the moved value initialises the parameter itself (the argument IS the move, possibly
+                    # wrapped in the implicit move construction)
+                    top = a
+                    while top is not None and top["k"] in ("ExprWithCleanups", "ImplicitCastExpr", "CXXBindTemporaryExpr",
+                                                           "MaterializeTemporaryExpr", "CXXConstructExpr", "ParenExpr"):
+                        top = kids(top)[0] if kids(top) else None
+                    if top is m:
+                        return (r["d"], r.get("n"))
+    return None
+
+
+# ------------------------------------------------------------------------------------------------
+# R-QUAD: the numerical integration uses the rule size it was asked for and computes in the scalar type
+# ------------------------------------------------------------------------------------------------
+def r_quad(chk, units):
+    rule = "R-QUAD"
+    chk.rule(rule, "every instantiation integrate<n, T, F, ...> applies a Gauss-Legendre rule gauss<T', N> with N >= n "
+                   "points and T' = T (fewer points lose exactness for degree 2n-1), and returns the spline's scalar "
+                   "type T whatever the weight's result type is (accumulating in a narrower type truncates)")
+    n_inst = 0
+    for u in units:
+        for f in u.funcs:
+            if f.dependent or f.pqn != "bspline::integration::integrate" or not f.in_lib():
+                continue
+            m = re.match(r"bspline::integration::integrate<(\d+)U?L?, ([^,]+),", f.qn)
+            if not m:
+                raise AnalysisBroken("cannot read the template arguments of %s" % f.qn[:120])
+            want_n, T = int(m.group(1)), m.group(2).strip()
+            n_inst += 1
+            rules = []
+            for n in f.all_nodes():
+                ci = call_info(u, n) if n["k"] in CALL_KINDS else None
+                if ci is None or ci.decl is None:
+                    continue
+                rq = ci.decl.get("recqn", "")
+                g = re.match(r"boost::math::quadrature::gauss(?:_kronrod)?<(.+), (\d+)U?L?(?:, .*)?>$", rq)
+                if g and ci.decl["name"] == "integrate":
+                    rules.append((g.group(1).strip(), int(g.group(2)), n))
+            if not rules:
+                raise AnalysisBroken("anchor vanished: %s applies no boost Gauss rule" % f.qn[:100])
+            bad = False
+            for (gt, gn, node) in rules:
+                if gn < want_n:
+                    bad = True
+                    chk.bad(rule, f.loc(node), f.pqn, "rule-size:%d<%d" % (gn, want_n),
+                            "integrate<%d> applies a %d-point Gauss-Legendre rule: the documented exactness (weight * "
+                            "product of degree <= %d) needs at least the %d points that were asked for" % (
+                                want_n, gn, 2 * want_n - 1, want_n), witness=dict(instantiation=f.qn, unit=u.name))
+                if gt != T:
+                    bad = True
+                    chk.bad(rule, f.loc(node), f.pqn, "rule-type:%s" % gt,
+                            "the Gauss rule is instantiated for %s, not for the scalar type %s of the splines" % (gt, T),
+                            witness=dict(instantiation=f.qn, unit=u.name))
+            rt = f.decl.get("rtype", "")
+            if rt != T:
+                bad = True
+                chk.bad(rule, f.where(), f.pqn, "result-type:%s" % rt,
+                        "this instantiation returns %s instead of the scalar type %s: the sum over the intervals is "
+                        "formed in the weight's result type (an integer- or float-valued weight truncates every "
+                        "contribution)" % (rt, T), witness=dict(instantiation=f.qn, unit=u.name))
+            if not bad:
+                chk.ok(rule, f.where(), "integrate<%d, %s>: %d-point rule in %s, result %s" % (
+                    want_n, T, rules[0][1], rules[0][0], rt), key=(f.qn,))
+    return n_inst
+
+
+# ------------------------------------------------------------------------------------------------
 # R-CFGI
 # ------------------------------------------------------------------------------------------------
 MACROS = ("DURING_TEST_CHECK_VALIDITY", "DURING_TEST_CHECK_VALIDITY_OF")
